@@ -101,6 +101,15 @@ func psOf(t *sym.Term) *pathState { return t.C.User.(*pathState) }
 // ---- solver plumbing ------------------------------------------------------
 
 func (ps *pathState) ensure() {
+	if ps.slv.Lost {
+		if ps.pushed {
+			// solver process was killed and restarted mid-path
+			ps.pushed = false
+			ps.slv.Lost = false
+			ps.fail("budget", "solver was killed (hard time limit) and restarted; path abandoned: %s", ps.slv.LastError)
+		}
+		ps.slv.Lost = false
+	}
 	if !ps.pushed {
 		ps.slv.ResetTranscript()
 		ps.slv.Send("(push)\n")
@@ -116,7 +125,10 @@ func (ps *pathState) ensure() {
 
 func (ps *pathState) finishSolver() {
 	if ps.pushed {
-		ps.slv.Send("(pop)\n")
+		if !ps.slv.Lost {
+			ps.slv.Send("(pop)\n")
+		}
+		ps.slv.Lost = false
 		ps.pr.Pop()
 		ps.pushed = false
 	}
@@ -553,7 +565,7 @@ func (c *Config) defaults() {
 		c.SolverTimeout = 20000
 	}
 	if c.Solver == "" {
-		c.Solver = solver.Z3
+		c.Solver = solver.Z3New
 	}
 }
 
